@@ -1,7 +1,7 @@
 """C02 rollback: crash-point enumeration + failure while the cache is written."""
 import random
 
-from .common import (signature, detail, case_of, account_build, handle_divs)
+from .common import signature, detail, case_of, account_build, handle_divs, nested_cache_rel
 from ..env import Scratch
 from ..world import World
 from ..gen import GenCfg, gen_program, gen_versions, program_shape
@@ -46,7 +46,7 @@ def run_shard(sh):
         shape = program_shape(program)
         nested = rng.random() < 0.25
         with Scratch('r') as sc:
-            w = World(sc, 'k/kk/cache.gz' if nested else 'cache.gz')
+            w = World(sc, nested_cache_rel(rng, program) if nested else 'cache.gz')
             counter = [0]
             bad = False
             for _ in range(rng.randint(0, 3)):
